@@ -187,7 +187,7 @@ class Oracle:
         if k == "index":
             return self.term(t["of"], s)[t["key"]]
         if k == "call":
-            return getattr(self.term(t["of"], s), t["name"])(*t["args"])
+            return getattr(self.term(t["of"], s), t["name"])(*t["args"], **t.get("kwargs", {}))
         if k == "symcall":
             return self.term(t["of"], s) // 2  # sf_half(n): falsy for 0 and 1
         raise ValueError(k)
@@ -357,7 +357,7 @@ class Builder:
         if k == "index":
             return self.term(t["of"])[t["key"]]
         if k == "call":
-            return getattr(self.term(t["of"]), t["name"])(*t["args"])
+            return getattr(self.term(t["of"]), t["name"])(*t["args"], **t.get("kwargs", {}))
         raise ValueError(k)
 
     def cond(self, c):
